@@ -88,6 +88,13 @@ SAFETY_NATIVE = ("c-runtime:", "c-input-modified", "c-nonzero-return", "llvm-cra
 
 
 def run(chk):
+    from .. import machine_selftest
+    from ..bridge import HarnessError
+
+    problems, n_snippets = machine_selftest.run()
+    if problems:
+        raise HarnessError("; ".join(problems))
+    chk.coverage_extra["machine_selftest_snippets"] = n_snippets
     n = 560 if chk.tier == "quick" else 30000
     chk.absorb(run_stream(__name__, "main", chk.tier, chk.seed, n), shrink=shrink_case)
     # the same three kernel kinds from the emitted C under ASan+UBSan (clang and gcc) and from the LLVM JIT;
